@@ -425,8 +425,6 @@ type zzC08Query struct {
 	CID   string // ClientID (DoH only)
 }
 
-var zzC08ConnMu sync.Mutex
-
 // send delivers one query and waits for the answer.
 func (e *zzC08Env) send(q *zzC08Query) (rcode int, err error) {
 	m := &dns.Msg{}
